@@ -1,14 +1,14 @@
 // C08 harness: segment id generators (x/uuid/seq.go) over a scripted counter store.
 //
 // input    = (events raws)
-// event    = (0 g step) NewSeqIDGen | (1 g a c) Init | (2 g a c) Next | (3 g) crash (the
+// event    = (0 g step) NewSeqIDGen | (1 g a c) Init | (2 g a c) Next | (4 g a c) MustNext | (3 g) crash (the
 //
 //	generator object is dropped; a later New creates the next incarnation)
 //	a/c = the answer the store gives if Storage.Incr is called during the event:
 //	0 c: returns c | 1: fails, counter did not move | 2 c: counter moved to c, call fails
 //
 // observed = (outs gouts)
-// out      = (kind value asked)  kind 0 nothing, 1 Init ok, 2 id, 3 the store's error,
+// out      = (kind value asked)  asked = number of Storage.Incr calls made during the operation  kind 0 nothing, 1 Init ok, 2 id, 3 the store's error,
 //
 //	4 "integer overflow", 5 anything else; asked = Storage.Incr was called
 //
@@ -24,6 +24,7 @@ import (
 	"log"
 	"os"
 	"strings"
+	"time"
 
 	"qchen.fun/fatchoy/x/uuid"
 	. "verifharness/common"
@@ -59,7 +60,7 @@ func eventOf(s Sx) event {
 	switch e.op {
 	case 0:
 		e.step = s.At(2).Int64()
-	case 1, 2:
+	case 1, 2, 4:
 		e.a = answer{s.At(2).Int64(), s.At(3).Int64()}
 	}
 	return e
@@ -70,11 +71,22 @@ func eventOf(s Sx) event {
 type store struct {
 	pending *answer
 	asked   bool
+	ncalls  int64 // Storage.Incr calls during the current operation
+	extra   int64 // counters handed out for calls beyond the first of one operation
 	policy  func() answer
 }
 
+// extraBase: an operation of the original code makes at most one store call.  Should it make a
+// second one, the scripted store answers it with a fresh counter far away from the script's.
+const extraBase = int64(4000000000000)
+
 func (s *store) Incr() (int64, error) {
 	s.asked = true
+	s.ncalls++
+	if s.ncalls > 1 {
+		s.extra++
+		return extraBase + s.extra, nil
+	}
 	if s.policy != nil {
 		*s.pending = s.policy()
 	}
@@ -92,6 +104,7 @@ func (s *store) Close() error { return nil }
 type outc struct {
 	kind, value int64
 	asked       bool
+	ncalls      int64 // how many Storage.Incr calls the operation made (the original: at most 1)
 }
 
 func classify(err error) int64 {
@@ -99,6 +112,20 @@ func classify(err error) int64 {
 	case err == errBefore || err == errAfter:
 		return 3
 	case strings.HasPrefix(err.Error(), "SeqID: integer overflow"):
+		return 4
+	}
+	return 5
+}
+
+// classifyPanic: MustNext / NextID panic with log.Panicf("next ID: %v", err)
+func classifyPanic(v interface{}) int64 {
+	msg, ok := v.(string)
+	switch {
+	case !ok:
+		return 5
+	case strings.Contains(msg, errBefore.Error()) || strings.Contains(msg, errAfter.Error()) || strings.Contains(msg, "store failure at ticket"):
+		return 3
+	case strings.Contains(msg, "SeqID: integer overflow"):
 		return 4
 	}
 	return 5
@@ -129,7 +156,7 @@ func play(evs []event, st *store) []outc {
 	}
 	for i := range evs {
 		e := &evs[i]
-		st.pending, st.asked = &e.a, false
+		st.pending, st.asked, st.ncalls = &e.a, false, 0
 		curGen = gens[e.g]
 		var o outc
 		switch e.op {
@@ -150,6 +177,17 @@ func play(evs []event, st *store) []outc {
 					}
 				})
 			}
+		case 4:
+			if g := gens[e.g]; g != nil {
+				watched(&o, func() {
+					var id int64
+					if p, v := Catch(func() { id = g.MustNext() }); !p {
+						o.kind, o.value = 2, id
+					} else {
+						o.kind = classifyPanic(v)
+					}
+				})
+			}
 		case 2:
 			if g := gens[e.g]; g != nil {
 				watched(&o, func() {
@@ -165,7 +203,7 @@ func play(evs []event, st *store) []outc {
 				})
 			}
 		}
-		o.asked = st.asked
+		o.asked, o.ncalls = st.asked, st.ncalls
 		outs[i] = o
 	}
 	return outs
@@ -190,7 +228,7 @@ func playAPI(evs []event, st *store) []outc {
 	}
 	for i := range evs {
 		e := &evs[i]
-		st.pending, st.asked = &e.a, false
+		st.pending, st.asked, st.ncalls = &e.a, false, 0
 		var o outc
 		if e.op == 2 && e.g == cur && cur == deadGen {
 			o.kind = 6
@@ -221,7 +259,7 @@ func playAPI(evs []event, st *store) []outc {
 				})
 			}
 		}
-		o.asked = st.asked
+		o.asked, o.ncalls = st.asked, st.ncalls
 		outs[i] = o
 	}
 	return outs
@@ -230,7 +268,11 @@ func playAPI(evs []event, st *store) []outc {
 func outsSx(outs []outc) Sx {
 	l := make([]Sx, len(outs))
 	for i, o := range outs {
-		l[i] = List(Int(o.kind), Int(o.value), Bool(o.asked))
+		n := o.ncalls
+		if o.asked && n == 0 {
+			n = 1
+		}
+		l[i] = List(Int(o.kind), Int(o.value), Int(n))
 	}
 	return ListOf(l)
 }
@@ -244,8 +286,14 @@ func eventsSx(evs []event) Sx {
 }
 
 func run(in Sx) Sx {
-	if in.At(0).Kind == 'i' { // a concurrent scenario: (9 seed ngen callers each step delay)
+	if in.At(0).Kind == 'i' && in.At(0).Int64() == 7 { // a gated scenario (gated.go)
+		evs, outs := runGated(gatedParamsOf(in))
+		concFacts = nil
+		return List(eventsSx(evs), outsSx(outs))
+	}
+	if in.At(0).Kind == 'i' { // a concurrent scenario: (9 seed ngen callers each step delay must)
 		_, _, obs := concObserved(concParamsOf(in))
+		concFacts = nil
 		return obs
 	}
 	var evs []event
@@ -301,6 +349,12 @@ func goCheck(evs []event, outs []outc) (string, bool) {
 	}
 	for i, e := range evs {
 		o := outs[i]
+		if e.op == 4 {
+			e.op = 2 // MustNext = Next whose error arrives as a panic
+		}
+		if o.ncalls > 1 {
+			return "store-error", false // one operation, at most one store call
+		}
 		switch e.op {
 		case 0:
 			st := e.step
@@ -477,7 +531,7 @@ func skeleton(r *Rng, style string, step int64, nev int) []event {
 				n = r.Range(2, 9)
 			}
 			for k := 0; k < n; k++ {
-				evs = append(evs, event{op: 2, g: int64(g)})
+				evs = append(evs, event{op: r.PickI64(2, 2, 4), g: int64(g)})
 			}
 		}
 	}
@@ -586,7 +640,7 @@ func gen(a Args, out *Out) {
 			if o.kind == 2 {
 				nids++
 			}
-			if o.asked && evs[i].op == 2 {
+			if o.asked && (evs[i].op == 2 || evs[i].op == 4) {
 				nasked++
 			}
 			out.Count(fmt.Sprintf("out:%d", o.kind))
@@ -609,7 +663,12 @@ func gen(a Args, out *Out) {
 		}
 		record(style, evs, outs, raws)
 	}
+	t0 := time.Now()
 	genConcurrent(a, out, r.Fork())
+	out.Note("concurrent + hot scenarios: %.1fs", time.Since(t0).Seconds())
+	t0 = time.Now()
+	genGated(a, out, r.Fork())
+	out.Note("gated scenarios: %.1fs", time.Since(t0).Seconds())
 	genAPI(a, out, r.Fork())
 	// the default step: a whole segment of 2000 ids and the roll-over, two generators
 	nlong := 3
@@ -651,17 +710,20 @@ func gen(a Args, out *Out) {
 func concurrent() {
 	r := NewRng(1)
 	calls := 0
-	for k := 0; k < 40; k++ {
+	for k := 0; k < 60; k++ {
 		p := concParams{seed: r.Next() >> 1, ngen: r.Range(1, 4), callers: r.Range(2, 6), each: r.Range(20, 120),
-			step: r.PickI64(1, 2, 3, 5, 8), dly: k % 4}
+			step: r.PickI64(1, 2, 3, 5, 8), dly: k % 5, must: k % 3}
+		if p.dly == 4 {
+			p.ngen, p.callers, p.each, p.step = 1, r.PickInt(4, 8, 16), 1000, r.PickI64(1, 2, 3)
+		}
 		evs, outs := runConcurrent(p)
 		calls += len(evs)
-		if what, ok := goCheck(evs, outs); !ok {
-			fmt.Println("FAIL:", what, p.sx().String())
+		if what, ok := goCheck(evs, outs); !ok || len(concFacts) > 0 {
+			fmt.Println("FAIL:", what, concFacts, p.sx().String())
 			os.Exit(1)
 		}
 	}
-	fmt.Printf("concurrent: 40 scenarios, %d linearised calls, property holds\n", calls)
+	fmt.Printf("concurrent: 60 scenarios, %d linearised calls, property holds\n", calls)
 }
 
 // genAPI: histories through uuid.Init / uuid.NextID (default step 2000).
